@@ -254,7 +254,7 @@ func ruleLIVGuard(c *Ctx, rule string, fns []*ssa.Function) {
 							continue
 						}
 						for _, lp := range loops {
-							if lp.body[o.v.Block()] && !lp.body[u] && lp.head.Dominates(u) {
+							if lp.body[o.v.Block()] && !lp.body[u] && entryDominates(lp.head, u) {
 								okB = true
 								reason = fmt.Sprintf("every letter of %s was sign-checked by the loop at %s, which dominates this use", baseName, c.pos(o.v.Pos()))
 							}
@@ -1245,4 +1245,60 @@ func lettersName(l [2]bool) string {
 		return "a query letter against the gap (a[gap][q])"
 	}
 	return "no letter"
+}
+
+// entryDominates: the loop head dominates u, or it is entered under tests of
+// a size against a constant only (if c > 1 { for ... }) from a block that
+// dominates u: the letters the loop does not look at then are those of a
+// table with no cells to fill, the same ones a nested loop skips.
+func entryDominates(head, u *ssa.BasicBlock) bool {
+	d := head
+	for step := 0; step < 3; step++ {
+		if d.Dominates(u) {
+			return true
+		}
+		id := d.Idom()
+		if id == nil {
+			return false
+		}
+		ifi, ok := id.Instrs[len(id.Instrs)-1].(*ssa.If)
+		if !ok {
+			d = id
+			continue
+		}
+		bo, ok := ifi.Cond.(*ssa.BinOp)
+		if !ok {
+			return false
+		}
+		_, kx := constIntVal(bo.X)
+		_, ky := constIntVal(bo.Y)
+		if kx == ky {
+			return false
+		}
+		other := bo.X
+		if kx {
+			other = bo.Y
+		}
+		// a size: a length, or a length plus a constant
+		isLen := func(v ssa.Value) bool {
+			call, ok := v.(*ssa.Call)
+			return ok && (builtinCall(call, "len") != nil || calleeName(&call.Call) == "Len")
+		}
+		isSize := false
+		switch x := other.(type) {
+		case *ssa.Call:
+			isSize = isLen(x)
+		case *ssa.BinOp:
+			if x.Op == token.ADD {
+				_, k1 := constIntVal(x.X)
+				_, k2 := constIntVal(x.Y)
+				isSize = (k1 && isLen(x.Y)) || (k2 && isLen(x.X))
+			}
+		}
+		if !isSize {
+			return false
+		}
+		d = id
+	}
+	return false
 }
